@@ -121,6 +121,18 @@ def check_refusal(ctx, m, pool, case, when):
             return False
         except ValueError:
             pass
+    # ... also when a computation context gives only ONE of the two (the other one is taken from the pool)
+    for kw in (dict(seed=case['seed'] + 1), dict(batch_size=case['b'] + 1)):
+        try:
+            elfi.ComputationContext(pool=pool, **kw)
+            ctx.fail_input(dict(case, refuse=kw, when=when), 'a pool accepted a context with a different %s (the other setting left to the pool; %s)' % (list(kw)[0], when))
+            return False
+        except ValueError:
+            pass
+    # a context that gives neither takes both from the pool (model: makeContext none none)
+    c0 = elfi.ComputationContext(pool=pool)
+    if (c0.batch_size, c0.seed) != (case['b'], case['seed']):
+        ctx.corr_break('context-adoption', dict(case, when=when), [case['b'], case['seed']], [c0.batch_size, c0.seed])
     ctx.count('refusal', when)
     return True
 
